@@ -151,6 +151,7 @@ def stepCons (d : ConsDrv) (a : Acc) (s : Step) : ConsDrv × Acc :=
     let implSent := parseSentC (o.get "sent")
     let implRet := toVals (parsePairs (o.get "ret"))
     let a := a.cmp s.lineNo "cons.cend.res" "ok" res
+    let a := if o.get "rep" != "" then (a.tag "replicas-compared").spec s.lineNo "C18.replicas-agree" (o.get "rep" == "same") (o.get "rep") else a
     let a := a.cmp s.lineNo "cons.cend.sent" (renderQueue r.2.1) (renderQueue implSent)
     let a := a.cmp s.lineNo "cons.cend.ret" (fmtPairs (ofVals r.2.2)) (o.get "ret")
     let a := cmpCons a s.lineNo r.1 after
